@@ -295,6 +295,10 @@ pub fn naming_templates() -> Vec<(&'static str, J)> {
         ("rec-map", json!({"type":"record","name":"T","namespace":"q","fields":[{"name":"kids","type":{"type":"map","values":"T"}}]})),
         ("rec-mutual", json!({"type":"record","name":"A","fields":[{"name":"b","type":["null",{"type":"record","name":"B","fields":[{"name":"a","type":["null","A"]},{"name":"v","type":"long"}]}]}]})),
         ("union-named", json!([{"type":"fixed","name":"F1","size":1},{"type":"fixed","name":"F2","size":1},{"type":"enum","name":"E","symbols":["A"]},{"type":"record","name":"R","fields":[{"name":"f","type":"F1"}]}])),
+        ("union-two-records", json!(["null",{"type":"record","name":"Created","fields":[{"name":"id","type":"long"},{"name":"owner","type":"string"}]},{"type":"record","name":"Renamed","fields":[{"name":"id","type":"long"},{"name":"new_name","type":"string"}]}])),
+        ("union-two-records-same-names", json!([{"type":"record","name":"A","fields":[{"name":"x","type":"int"}]},{"type":"record","name":"B","fields":[{"name":"x","type":"string"}]},{"type":"record","name":"C","fields":[{"name":"x","type":"int"},{"name":"y","type":["null","A"]}]}])),
+        ("union-two-records-in-record", json!({"type":"record","name":"Env","fields":[{"name":"seq","type":"long"},{"name":"ev","type":[{"type":"record","name":"P","fields":[{"name":"a","type":"int"},{"name":"b","type":"int"}]},{"type":"record","name":"Q","fields":[{"name":"a","type":"int"},{"name":"c","type":"int"}]}]}]})),
+        ("union-two-enums-two-fixed", json!([{"type":"enum","name":"E1","symbols":["A","B"]},{"type":"enum","name":"E2","symbols":["B","C"]},{"type":"fixed","name":"G1","size":2},{"type":"fixed","name":"G2","size":3}])),
         ("union-in-array-in-map", json!({"type":"map","values":{"type":"array","items":["null","string",{"type":"array","items":"long"}]}})),
     ]
 }
